@@ -1,6 +1,7 @@
 package ast
 
 import (
+	"github.com/ajitpratap0/GoSQLX/pkg/models"
 	vx "github.com/ajitpratap0/GoSQLX/zzvx"
 )
 
@@ -69,4 +70,21 @@ func VxC14_Deep() {
 		return true
 	})
 	vx.Assertf("C14.deep", found, "operand at depth %d of a left-deep chain is not visited", depth)
+}
+
+// VxC09_ASTContainer: the AST container itself comes back clean from the pool whatever
+// it held (any number of comments, any statements).
+func VxC09_ASTContainer() {
+	vx.PoolGC()
+	a := NewAST()
+	n := vx.Choice(40)
+	a.Comments = make([]models.Comment, n)
+	for k := range a.Comments {
+		a.Comments[k].Text = "-- note"
+	}
+	a.Statements = append(a.Statements, &SelectStatement{TableName: "t"})
+	vx.Notef("comments=%d", n)
+	ReleaseAST(a)
+	b := NewAST() // LIFO pool model: the container just released
+	vx.Assertf("C09.clean_container", len(b.Comments) == 0 && len(b.Statements) == 0, "AST container from the pool still holds %d comments / %d statements of the previous user", len(b.Comments), len(b.Statements))
 }
